@@ -35,6 +35,15 @@ type Gen struct {
 	// cast member's owner key (known defect: State.getProducer then resolves
 	// that owner key to the wrong producer).
 	AllowKeyOverlap bool
+	// MinTxs, if set, is the least number of candidates tried for the next block.
+	MinTxs func() int
+	// UniformKinds makes the kind draw follow the weights exactly (default:
+	// rapid's small-value bias favours the alphabetically first kinds).
+	UniformKinds bool
+	kindDraws    uint64
+	// StaffEveryElection: work towards enough voted CR candidates in every
+	// voting period (default: the first one only).
+	StaffEveryElection bool
 	// Boost, if set, multiplies the weight of a kind for the next block (lets a
 	// check steer the mix by the live state).
 	Boost func(kind string) int
@@ -135,6 +144,15 @@ func (g *Gen) weight(kind string) int {
 	return w
 }
 
+// Weights lists the effective kind weights for the next block (diagnostics).
+func (g *Gen) Weights() map[string]int {
+	out := map[string]int{}
+	for _, k := range g.kindNames() {
+		out[k] = g.weight(k)
+	}
+	return out
+}
+
 // understaffed tells that the arbiter set or the first committee cannot be
 // filled yet (the generator then works towards filling them).
 func (g *Gen) understaffed() bool {
@@ -144,7 +162,7 @@ func (g *Gen) understaffed() bool {
 		return true
 	}
 	h := k.Height + 1
-	if h >= k.Params.CRConfiguration.CRVotingStartHeight && h < k.Params.CRConfiguration.CRCommitteeStartHeight {
+	if h >= k.Params.CRConfiguration.CRVotingStartHeight && (h < k.Params.CRConfiguration.CRCommitteeStartHeight || g.StaffEveryElection && k.Committee.IsInVotingPeriod(h)) {
 		voted := 0
 		for _, c := range k.Committee.GetCandidates(crstate.Active) {
 			if c.Votes > 0 {
@@ -162,7 +180,21 @@ func (g *Gen) drawKind(t *rapid.T) string {
 	for _, k := range ks {
 		total += g.weight(k)
 	}
-	x := rapid.IntRange(0, total-1).Draw(t, "kind")
+	x := 0
+	if g.UniformKinds {
+		// rapid's integers are drawn bit-length first (small values are far
+		// more likely than their share), which would favour the kinds that come
+		// first in the alphabet whatever their weights: mix the bits
+		// (the draw counter spreads rapid's favourite values 0, 1, 2, ...)
+		g.kindDraws++
+		u := rapid.Uint64().Draw(t, "kind") + g.kindDraws*0x9e3779b97f4a7c15
+		u = (u ^ (u >> 33)) * 0xff51afd7ed558ccd
+		u = (u ^ (u >> 33)) * 0xc4ceb9fe1a85ec53
+		u ^= u >> 33
+		x = int(u % uint64(total))
+	} else {
+		x = rapid.IntRange(0, total-1).Draw(t, "kind")
+	}
 	for _, k := range ks {
 		if x < g.weight(k) {
 			return k
@@ -186,6 +218,11 @@ func (g *Gen) Block(t *rapid.T) (*types.Block, *payload.Confirm, BlockInfo) {
 		n = rapid.IntRange(0, g.MaxTxs).Draw(t, "ntx")
 		if n < 2 && g.understaffed() {
 			n = 2
+		}
+		if g.MinTxs != nil {
+			if m := g.MinTxs(); n < m {
+				n = m
+			}
 		}
 	}
 	for i := 0; i < n; i++ {
